@@ -216,7 +216,10 @@ def check_cli(ctx, rng, ntrees, runs_per_tree):
         b1, p1, s1 = split_blocks(j["mode"], r1["out"])
         ctx.note_case(repr((j["root"], j["mode"], j["n"], j["pre"], j["sort"])), len(b1) >= 2)
         if r1["err"] or rn["err"] or rn2["err"]:
-            ctx.violation("unexpected diagnostics in an error-free tree", replay, nfi=True)
+            differs = rn["status"] != r1["status"] or rn2["status"] != r1["status"]
+            ctx.violation("diagnostics in an error-free tree%s: %r" % (
+                "; exit status differs: -j1 %d, -j%d %d/%d" % (r1["status"], j["n"], rn["status"], rn2["status"])
+                if differs else "", (r1["err"] or rn["err"] or rn2["err"])[:160]), replay, nfi=not differs)
             continue
         if p1:
             ctx.violation("the -j1 output does not follow the block grammar (check or printer changed): " + p1[0], replay,
